@@ -48,7 +48,9 @@ def corr (c : Case) (thresh : R) : Option String :=
   let rf : Nat → R := fun i => FBits.ofBits ((c.raw "R").getD i 0)
   let cf : Nat → R := fun j => FBits.ofBits ((c.raw "C").getD j 0)
   let g (k : String) : R := FBits.ofBits ((c.raw k).getD 0 0)
-  let (q, vals) := laqgs m n es rf cf thresh small large (g "rowcnd") (g "colcnd") (g "amax")
+  -- (`rowcnd.q`, `colcnd.q`: the ratios actually handed to laqgs; gsequ's, or values at the threshold)
+  let gq (k : String) : R := if (c.raw (k ++ ".q")).size > 0 then g (k ++ ".q") else g k
+  let (q, vals) := laqgs m n es rf cf thresh small large (gq "rowcnd") (gq "colcnd") (g "amax")
   if q.toChar.toString ≠ c.p "equed" then some s!"equed model={q.toChar} impl={c.p "equed"}" else
   cmp "Aout" (Wire.enc vals.toArray) (c.raw "Aout")
 end corr
@@ -122,8 +124,11 @@ def prop (c : Case) : Option String := Id.run do
   let small := sml / prec; let large := 1 / small
   let thresh : Rat := 1 / 10
   -- (the single-precision code compares against the double constant 0.1; a float is >= 0.1 iff it is >= 0.1f)
-  let q := laqgsRule thresh (small * (1 - 2 * eps)) (large * (1 + 2 * eps)) rowcnd colcnd amax
-  let q2 := laqgsRule thresh (small * (1 + 2 * eps)) (large * (1 - 2 * eps)) rowcnd colcnd amax
+  -- the ratios handed to laqgs (gsequ's, or in the directed class values at / next to the threshold)
+  let rowcndQ := ((ratsOf dbl (c.raw "rowcnd.q")).bind (·[0]?)).getD rowcnd
+  let colcndQ := ((ratsOf dbl (c.raw "colcnd.q")).bind (·[0]?)).getD colcnd
+  let q := laqgsRule thresh (small * (1 - 2 * eps)) (large * (1 + 2 * eps)) rowcndQ colcndQ amax
+  let q2 := laqgsRule thresh (small * (1 + 2 * eps)) (large * (1 - 2 * eps)) rowcndQ colcndQ amax
   let eq := c.p "equed"
   if q.toChar.toString ≠ eq ∧ q2.toChar.toString ≠ eq then return some s!"equed={eq} but the threshold rule gives {q.toChar}"
   let qq := if q.toChar.toString = eq then q else q2
